@@ -1,8 +1,8 @@
 SPECIFICATION MCSpec
 CONSTANTS
-  MaxRecs = 4
+  MaxRecs = 3
   MaxBatch = 2
-  MaxOps = 7
+  MaxOps = 6
   MaxEpoch = 2
   CapSet = {1, 2}
   KeySet = {"nil", "a"}
@@ -17,6 +17,7 @@ CONSTANTS
   UseWindow = TRUE
   UseReopen = TRUE
   UseEpochs = TRUE
+  OccSet = {FALSE}
   UseReaders = FALSE
 INVARIANTS CTypeOK C01_Ordered SegsConsistent NoEmptyInnerSegment
 PROPERTIES StepsOK
